@@ -893,7 +893,7 @@ func certNamesOf(db acme.DB, orderID string) string {
 	for _, d := range all.DNSNames {
 		if !find("dns", func(v string) bool { return lower(v) == lower(d) }) {
 			if isWire && d == "" {
-				return "VIOL:certificate-name-not-validated:wire-empty-san" // C13-F3
+				return "VIOL:certificate-name-not-validated:wire-empty-san" // C13-F3 (fixed in 167bc71)
 			}
 			return "VIOL:certificate-name-not-validated"
 		}
@@ -1887,7 +1887,7 @@ func cornerNames() []*Case {
 		{Names: true, Ops: []Op{{K: "n", IDs: []string{"permanent-identifier:*.1234567"}}, {K: "t", Obj: 0, Az: 0, Key: 1, Now: 1, How: "ok"}, {K: "f", Now: 2, CSR: "match", Key: 1}}},
 		// C13-F2: the dns name of a mixed attested order is validated and then left out of the certificate
 		{Names: true, Ops: []Op{{K: "n", IDs: []string{"permanent-identifier:42", "dns:a.example.com"}}, {K: "t", Obj: 0, Az: 0, Key: 1, Now: 1, How: "ok"}, {K: "r", Obj: 2, Now: 2, How: "ok"}, {K: "f", Now: 3, CSR: "match", Key: 1}}},
-		// Wire: the leaf carries the two URIs and the display name; C13-F3: handle = client id, the CSR repeats the URI
+		// Wire: the leaf carries the two URIs and the display name; C13-F3 (fixed in 167bc71): handle = client id, the CSR repeats the URI
 		{Names: true, Ops: []Op{{K: "n", IDs: wireIDs()}, {K: "w", Obj: 0, Now: 1, How: "ok"}, {K: "w", Obj: 1, Now: 2, How: "ok"}, {K: "f", Now: 3, CSR: "match"}}},
 		{Names: true, Ops: []Op{{K: "n", IDs: wireIDs(true)}, {K: "w", Obj: 0, Now: 1, How: "ok"}, {K: "w", Obj: 1, Now: 2, How: "ok"}, {K: "f", Now: 3, CSR: "match"}}},
 		{Names: true, Ops: []Op{{K: "n", IDs: []string{"dns:a.example.com", "dns:*.example.com", "ip:10.0.0.1"}}, {K: "r", Obj: 0, Now: 1, How: "ok"}, {K: "r", Obj: 3, Now: 2, How: "ok"}, {K: "r", Obj: 4, Now: 3, How: "ok"},
